@@ -3,8 +3,10 @@ package main
 import (
 	"bytes"
 	"fmt"
+	"io"
 	"math/rand"
 	"strings"
+	"testing/iotest"
 
 	comet "github.com/wizenheimer/comet"
 )
@@ -455,9 +457,38 @@ func buildState(r *rand.Rand, ck int, t *Trace) builtState {
 	return b
 }
 
+var readShape int
+
+// pieceReader hands out pieces of 1..7 bytes in a fixed irregular rhythm
+type pieceReader struct {
+	r io.Reader
+	k int
+}
+
+func (p *pieceReader) Read(b []byte) (int, error) {
+	p.k = (p.k*7 + 3) % 11
+	n := 1 + p.k%7
+	if n > len(b) {
+		n = len(b)
+	}
+	return p.r.Read(b[:n])
+}
+
 func readWith(spec recvSpec, stream []byte) (l loaded, code int, n int64, consumed int64) {
 	l, rd := spec.fresh()
-	cr := &countingReader{r: bytes.NewReader(stream)}
+	// the stream arrives as the reader pleases: all at once, a byte at a time, in halves, in uneven pieces
+	// (a file, a pipe, a decompressor: io.Reader promises no more than "some bytes")
+	readShape++
+	var src io.Reader = bytes.NewReader(stream)
+	switch readShape % 4 {
+	case 1:
+		src = iotest.OneByteReader(src)
+	case 2:
+		src = iotest.HalfReader(src)
+	case 3:
+		src = &pieceReader{r: src, k: readShape}
+	}
+	cr := &countingReader{r: src}
 	var err error
 	pan := catchPanic(func() { n, err = rd(cr) })
 	code = 0
